@@ -132,10 +132,16 @@ def _classify_atom(ctx, fi: FuncInfo, a: ast.expr, at, weights_fn: FuncInfo):
     def is_ntotal(e):
         return any((isinstance(x, ast.Attribute) and x.attr == "n_total") or (isinstance(x, ast.Constant) and x.value == "n_total") for x in ast.walk(e))
 
+    def exact(e, call) -> bool:
+        """the ESS itself (possibly through float()), not a rounded / shifted / scaled version of it"""
+        while isinstance(e, ast.Call) and dotted(e.func) in ("float", "np.float64", "numpy.float64") and len(e.args) == 1:
+            e = e.args[0]
+        return e is call
+
     if is_ess(l) is not None and is_ntotal(r):
-        return ("ess", op, is_ess(l))
+        return ("ess", op, is_ess(l)) if exact(l, is_ess(l)) else ("ess-lossy", op, is_ess(l), l)
     if is_ess(r) is not None and is_ntotal(l):
-        return ("ess", _flip(op), is_ess(r))
+        return ("ess", _flip(op), is_ess(r)) if exact(r, is_ess(r)) else ("ess-lossy", _flip(op), is_ess(r), r)
     return None
 
 
@@ -191,6 +197,11 @@ def rule_a(ctx: Context, R: Reporter):
         n_atoms += len(atoms)
         if len(atoms) > 8:
             raise AnalysisError("C12.a: too many atoms in the termination predicate")
+        for c_ in cls:
+            if c_ and c_[0] == "ess-lossy":
+                R.check("C12.a", "the ESS compared with n_total in the guard is the ESS itself", False, g, rn.stmt,
+                        msg=f"{g.short}: the guard compares `{unparse(c_[3])[:60]}` with n_total, not the effective sample size itself: rounding / shifting the ESS lets the loop stop while "
+                            f"the true ESS is still below n_total (e.g. anywhere in [n_total - 0.5, n_total) with round-to-nearest)", key="ess-lossy")
         beta_atoms = [i for i, c in enumerate(cls) if c and c[0] == "beta"]
         ess_atoms = [i for i, c in enumerate(cls) if c and c[0] == "ess"]
         implied_beta = bool(beta_atoms)
@@ -826,6 +837,8 @@ def variants():
     return [
         Variant("a-or-to-and", "bad", replace_expr(core, "SamplerCore._not_termination", "1.0 - beta >= 0.0001 or ess < getattr(self, 'n_total', 0)", "1.0 - beta >= 0.0001 and ess < getattr(self, 'n_total', 0)"), ["C12.a"], quick=True),
         Variant("a-loose-tolerance", "bad", replace_expr(core, "SamplerCore._not_termination", "0.0001", "0.01"), ["C12.a"], quick=True),
+        Variant("a-ess-rounded-to-nearest", "bad", replace_stmt(core, "SamplerCore._not_termination", "ess = effective_sample_size(weights)", "ess = int(np.rint(effective_sample_size(weights)))"), ["C12.a"], quick=True),
+        Variant("a-benign-ess-as-float", "benign", replace_stmt(core, "SamplerCore._not_termination", "ess = effective_sample_size(weights)", "ess = float(effective_sample_size(weights))")),
         Variant("a-drop-ess", "bad", replace_expr(core, "SamplerCore._not_termination", "1.0 - beta >= 0.0001 or ess < getattr(self, 'n_total', 0)", "1.0 - beta >= 0.0001"), ["C12.a"]),
         Variant("a-ess-of-current-beta", "bad", replace_expr(core, "SamplerCore._not_termination", "self.state.compute_logw_and_logz(1.0)", "self.state.compute_logw_and_logz(self.state.get_current('beta') or 0.0)"), ["C12.a"]),
         Variant("a-break-in-loop", "bad", insert_after(core, "SamplerCore.run_sampling", "self.execute_iteration(save_every=save_every, t0=t0)", "if self.state.get_current('beta') == 1.0:\n    break"), ["C12.a"]),
